@@ -93,10 +93,10 @@ checks = {
     wait = ['P03', 'P05', 'P06', 'P10', 'P13', 'P21', 'P22']
     if tier == 'quick':
         mc = [dict(name='C06_env', progs=C.fam(wait), plans=[[]], alphabet=alpha, k=4, invariants=INV, overrides=ov, extra_defs=xd),
-              dict(name='C06_awaitables', progs=C.fam(['W1', 'W3', 'W4']), plans=[[]], alphabet=['complete', 'pause', 'play', 'kill'], k=4, invariants=INV)]
+              dict(name='C06_awaitables', progs=C.fam(['W1', 'W3', 'W4', 'W6']), plans=[[]], alphabet=['complete', 'pause', 'play', 'kill'], k=4, invariants=INV)]
         rp = [dict(name='C06_env', progs=C.fam(['P03', 'P05', 'P10']), plans=[[]], alphabet=alpha, k=3, overrides=ov, extra_defs=xd),
               dict(name='C06_wake4', progs=C.fam(['P03']), plans=[[]], alphabet=['resume', 'pause', 'play'], k=4, overrides=ov, extra_defs=xd),
-              dict(name='C06_awaitables', progs=C.fam(['W1', 'W3']), plans=[[]], alphabet=['complete', 'pause', 'play', 'kill'], k=3)]
+              dict(name='C06_awaitables', progs=C.fam(['W1', 'W3', 'W6']), plans=[[]], alphabet=['complete', 'pause', 'play', 'kill'], k=3)]
     else:
         mc = [dict(name='C06_env', progs=C.fam(wait), plans=[[]], alphabet=alpha, k=6, invariants=INV, overrides=ov, extra_defs=xd),
               dict(name='C06_awaitables', progs=C.fam(['W1', 'W2', 'W3', 'W4', 'W5']), plans=[[]], alphabet=['complete', 'pause', 'play', 'kill'], k=5, invariants=INV)]
@@ -109,12 +109,15 @@ checks = {
         pid='C13', doc='C13 - the return value of a step alone decides what happens next, with exact arguments, also across a checkpoint restore.',
         inv=['C13_Continuation', 'C13_Outcome', 'C06_ResumeValue'], prop=[],
         body='''    ov = [('ResumeVals', 'MCResumeVals')]
-    xd = 'MCResumeVals == {"v1", "v0", "NULL"}\\n'
+    xd = 'MCResumeVals == {"v1", "v0", "NULL", "-"}\\n'          # resume(1), resume(0), resume(), resume(None)
     progs = C.ALL + ['P20', 'P21', 'P22', 'P23', 'P24']
     ppr = ['resume', 'pause', 'play']
     pe = core_model.plan_entry
     pfault = [[]] + [[pe(h, o, 'fault', 'X')] for h in ('on_pausing', 'on_paused', 'on_playing') for o in (1, 2)]
     saves = [[]] + [[pe('cb_entered', o, 'save')] for o in (1, 2, 3)]
+    # checkpoints written while the command of a step is being obeyed (exit / entering phase: the old RUNNING state is still
+    # current, so the restored process runs that step again - not a step boundary: conformance only, no C08 invariant)
+    saves_mid = [[]] + [[pe(h, o, 'save')] for h in ('on_exit_running', 'cb_exiting', 'on_wait', 'cb_entering') for o in (1, 2)]
     rkn = {'medium': 'none', 'listener': False}
     # a pause requested by user code while the Wait command is being obeyed (before, during and after the state switch)
     hp = core_check.reentrant_plans(['on_wait', 'on_exit_running', 'cb_entering', 'cb_exiting', 'on_waiting', 'cb_entered'], [('pause', 'p2')], occs=(1, 2))
@@ -125,6 +128,8 @@ checks = {
               dict(name='C13_env', progs=C.fam(['P04', 'P14', 'P20', 'P21', 'P22']), plans=[[]], alphabet=ppr, k=2, overrides=ov, extra_defs=xd),
               dict(name='C13_pausefault', progs=C.fam(['P04', 'P14', 'P22']), plans=pfault, alphabet=['pause', 'play'], k=2),
               dict(name='C13_restore', progs=C.fam(['P04', 'P20', 'P24']), plans=saves, alphabet=['restore'], k=1, run_kw=rkn),
+              dict(name='C13_restore_mid', progs=C.fam(['P01', 'P03', 'P04', 'P06', 'P07', 'P20']), plans=saves_mid, alphabet=['restore', 'resume'], k=2,
+                   run_kw={'medium': 'pickle', 'listener': False}),
               dict(name='C13_wake', progs=C.fam(['P03', 'P21']), plans=[[]], alphabet=ppr, k=3),
               dict(name='C13_hookpause', progs=C.fam(['P03', 'P21', 'P22']), plans=hp, alphabet=['play', 'resume'], k=2)]
         mc.append(dict(name='C13_hookpause', progs=C.fam(['P03', 'P21', 'P22']), plans=hp, alphabet=['play', 'resume'], k=3, invariants=INV[:1] + INV[2:]))
@@ -138,6 +143,7 @@ checks = {
               dict(name='C13_pausefault', progs=C.fam(['P04', 'P14', 'P20', 'P22']), plans=pfault, alphabet=['pause', 'play', 'resume'], k=3),
               dict(name='C13_restore', progs=C.fam(progs), plans=saves, alphabet=['restore', 'resume'], k=2, run_kw=rkn,
                    overrides=[('MaxRestores', 'MCMaxRestores')], extra_defs='MCMaxRestores == 1\\n'),
+              dict(name='C13_restore_mid', progs=C.fam(progs), plans=saves_mid, alphabet=['restore', 'resume'], k=3, run_kw={'medium': 'pickle', 'listener': False}),
               dict(name='C13_hookpause', progs=C.fam(['P03', 'P06', 'P10', 'P13', 'P21', 'P22']), plans=hp, alphabet=['play', 'resume', 'pause'], k=3)]
         mc.append(dict(name='C13_hookpause', progs=C.fam(['P03', 'P06', 'P10', 'P13', 'P21', 'P22']), plans=hp, alphabet=['play', 'resume', 'pause'], k=4, invariants=INV[:1] + INV[2:]))
         mc.append(dict(name='C13_pausefault', progs=C.fam(progs), plans=pfault, alphabet=['pause', 'play', 'resume'], k=3, invariants=INV[:1]))
